@@ -232,11 +232,23 @@ func canonAttrs(m *ds.ValueMap) string {
 func newVM(cfg ds.RollConfig, seedTok string) (*ds.Context, bool) {
 	vm := &ds.Context{}
 	if seedTok != "-" {
-		b, err := hex.DecodeString(seedTok)
-		if err != nil || len(b) != 16 {
-			return nil, false
+		if strings.HasPrefix(seedTok, "S") {
+			// a seed of any other length (possibly empty, never nil): "S" + hex
+			b, err := hex.DecodeString(seedTok[1:])
+			if err != nil {
+				return nil, false
+			}
+			if b == nil {
+				b = []byte{}
+			}
+			vm.Seed = b
+		} else {
+			b, err := hex.DecodeString(seedTok)
+			if err != nil || len(b) != 16 {
+				return nil, false
+			}
+			vm.Seed = b
 		}
-		vm.Seed = b
 	}
 	vm.Init()
 	vm.Config = cfg
